@@ -143,11 +143,17 @@ def evaluate(ctx, kinds, quants, words, opcode="Nop"):
     return r, h
 
 
-def cases():
-    for n in range(0, 4):
+def cases(extra=0):
+    """operand lists of length <= 3 (<= extra + 1 if the code counts further), 0..4 (extra + 2) words left"""
+    for n in range(0, max(4, min(extra + 2, 6))):
         for qs in itertools.product(QS, repeat=n):
-            for w in range(0, 5):
+            for w in range(0, max(5, extra + 3)):
                 yield list(qs), w
+
+
+def extra(ctx):
+    from ..tree import small_literals
+    return max(small_literals(ctx.rspirv.fn(PAR, "parse_operands", "Parser")["body"]) | {0})
 
 
 SPECIAL_ROWS = {
@@ -172,7 +178,7 @@ def special(ctx):
 
 def any_panic(ctx):
     """first abstract case of the quantifier family in which parse_operands panics, or None"""
-    for quants, words in cases():
+    for quants, words in cases(extra(ctx)):
         r, h = evaluate(ctx, ["K%d" % i for i in range(len(quants))], quants, words)
         if isinstance(r, tuple) and r and r[0] == "panic":
             return (quants, words, r[1])
